@@ -172,6 +172,9 @@ var c02Wraps = []struct{ name, pre, post, opre, opost string }{
 	{"fn", `<% let f = fn() { %>`, `<% } %><%= f() %>`, "", ""},
 	{"helper", `<%= blk() { %>`, `<% } %>`, "{", "}"},
 	{"for-if", `<%= for (v) in one { %><%= if (v == 7) { %>`, `<% } %><% } %>`, "", ""},
+	{"for-iterator-break", `<%= for (v) in range(1, 3) { %>`, `<% break %>never<% } %>`, "", ""},
+	{"for-slice-continue", `<%= for (v) in one { %>`, `<% continue %>never<% } %>`, "", ""},
+	{"for-map-break", `<%= for (k, v) in {"a": 1, "b": 2} { %>`, `<% break %>never<% } %>`, "", ""},
 }
 
 func init() {
@@ -196,7 +199,7 @@ func init() {
 			return s
 		},
 		Run:  c02Run,
-		Rule: "family A: every string over {< % > \\ = # a \" { \\n é} up to length L bare, and s1·TAG·s2 around each of 4 generated tags (|s1|<=3,|s2|<=2), compared with a left-to-right reference scanner that knows only the two escapes; templates whose reference scan meets a live <% that is not the generated tag are outside the grammar (totality only). Family B: <%= \"S\" %> / <%= `S` %> / let-bound / helper-argument string literals for every body S over {a \\ \" % > < # \\n é } space `} up to length L that the reference tokeniser closes at its own quote; expected = HTML-escape(denotation). Family C: every sequence of <=3 items from {text, output tag, 17 silent constructs (expression/let/assign/if/for/comment/line-comment/fn statements incl. values that are HTML)} in 7 placements (top, if, else, for, fn body, helper block, for+if); expected = the same sequence with silent items deleted. Non-trivial: contains an escape-relevant byte next to a boundary / a silent item.",
+		Rule: "family A: every string over {< % > \\ = # a \" { \\n é} up to length L bare, and s1·TAG·s2 around each of 4 generated tags (|s1|<=3,|s2|<=2), compared with a left-to-right reference scanner that knows only the two escapes; templates whose reference scan meets a live <% that is not the generated tag are outside the grammar (totality only). Family B: <%= \"S\" %> / <%= `S` %> / let-bound / helper-argument string literals for every body S over {a \\ \" % > < # \\n é } space `} up to length L that the reference tokeniser closes at its own quote; expected = HTML-escape(denotation). Family C: every sequence of <=3 items from {text, output tag, 17 silent constructs (expression/let/assign/if/for/comment/line-comment/fn statements incl. values that are HTML)} in 10 placements (top, if, else, for, fn body, helper block, for+if, iterator loop ending in break, slice loop ending in continue, map loop ending in break); expected = the same sequence with silent items deleted. Non-trivial: contains an escape-relevant byte next to a boundary / a silent item.",
 		Bound: func(th bool) string {
 			if th {
 				return "A: bare |s|<=6, around |s1|<=3 |s2|<=2, core alphabet {\\ < % a} bare |s|<=10 and before/around a tag |s|<=8; B: |S|<=5; C: sequences <=3"
